@@ -3,7 +3,7 @@
    C13_<a>_in_<b>.v written by tools/c13.py.) *)
 From Coq Require Import List NArith Bool Arith.
 Import ListNotations.
-Require Import V.Regex V.Abnf V.Parse V.Bridge V.BridgePaths V.C02Bridge V.C13Proofs.
+Require Import V.Regex V.Abnf V.Parse V.Bridge V.BridgePaths V.C02Bridge V.C13Proofs V.C13Ascii.
 Open Scope N_scope.
 
 Theorem C13_uri_is_iri : forall s, L (IRI U U) s -> L (IRI I C02Bridge.P) s.
@@ -18,3 +18,12 @@ Print Assumptions C13_uri_iff_scheme.
 Theorem C13_iri_iff_scheme : forall s, L (IRI I C02Bridge.P) s <-> L (IRI_reference I C02Bridge.P) s /\ L SCHEME_SHAPE s.
 Proof. exact iri_iff_ref_with_scheme. Qed.
 Print Assumptions C13_iri_iff_scheme.
+
+(* the partial conversions back (as_uri, as_uri_ref, try_into_uri, try_into_uri_ref re-validate the text as a URI):
+   an IRI (IRI reference) is a URI (URI reference) exactly when it contains no non-ASCII character *)
+Theorem C13_iri_is_uri_iff_ascii : forall s, L (IRI I C02Bridge.P) s -> (L (IRI U U) s <-> Forall (fun c => (c < 128)%N) s).
+Proof. exact iri_is_uri_iff_ascii. Qed.
+Print Assumptions C13_iri_is_uri_iff_ascii.
+Theorem C13_iriref_is_uriref_iff_ascii : forall s, L (IRI_reference I C02Bridge.P) s -> (L (IRI_reference U U) s <-> Forall (fun c => (c < 128)%N) s).
+Proof. exact iriref_is_uriref_iff_ascii. Qed.
+Print Assumptions C13_iriref_is_uriref_iff_ascii.
